@@ -233,7 +233,7 @@ def native_replay(crate, relfile, unit_mod, vals, target_dir=None, timeout=900, 
     env = dict(os.environ)
     env['CARGO_NET_OFFLINE'] = 'true'
     env['RUSTFLAGS'] = (env.get('RUSTFLAGS', '') + ' --cfg verif_replay -Awarnings').strip()
-    env['CARGO_TARGET_DIR'] = target_dir or native_target_dir()
+    env['CARGO_TARGET_DIR'] = target_dir or (native_target_dir() + os.environ.get('VERIF_TAG', ''))
     cmd = ['cargo', 'test', '--offline', '--lib', 'verif_replay', '--', '--nocapture', '--test-threads', '1']
     t0 = time.time()
     try:
